@@ -19,7 +19,7 @@ def _pos_tol(depth: float) -> float:
 class C18(Check):
     pid = "C18"
     level = "exploration"
-    budgets = {"quick": (300, 16), "thorough": (4500, 16)}
+    budgets = {"quick": (300, 16), "thorough": (2200, 16)}
     rule = (
         "Programs: a plain Drillhole under the workspace root with a collar (lattice or arbitrary floats) and a "
         "survey table of 1-8 rows with non-decreasing depth (first depth 0 or >0, repeated depths, azimuths also "
@@ -303,18 +303,14 @@ class C18(Check):
 
         # ---- guards of the text findings (active unless allow_known)
         if not allow:
-            if kind_op == "add_depth" and kind == "text" and depth_now is not None and (collocated or permutes):
-                kind = "float"  # text depth data: raises when collocated, left unsorted when a sort follows
-                res.count("excluded_by_finding")
-                res.label("guard:text-depth->float")
-            elif kind_op == "add_depth" and kind == "text" and permutes:
-                kind = "float"
-                res.count("excluded_by_finding")
-                res.label("guard:text-depth->float")
-            elif kind_op == "add_depth" and text_vertex_data and permutes:
+            if kind_op == "add_depth" and text_vertex_data and permutes:
                 res.count("excluded_by_finding")  # a sort would leave earlier text vertex data behind
                 res.label("guard:skip-sort-with-text-vertex-data")
                 return False
+            if kind_op == "add_depth" and kind == "text" and (permutes or (depth_now is not None and collocated)):
+                kind = "float"  # text depth data: raises when collocated, left unsorted when a sort follows
+                res.count("excluded_by_finding")
+                res.label("guard:text-depth->float")
             elif kind_op == "add_interval" and kind == "text" and collocated:
                 kind = "float"  # text values matched to an existing cell are cut to one character
                 res.count("excluded_by_finding")
@@ -462,10 +458,10 @@ class C18(Check):
                     continue
                 if not near:
                     cond = "no-support-within-tolerance"
-                elif entry["kind"] == "text" and any(str(val) and str(want).startswith(str(val)) for val in carried):
-                    cond = "text-truncated"
                 elif any(self._same(val, want, entry["kind"]) for val in vals):
                     cond = "value-at-another-support"
+                elif entry["kind"] == "text" and any(str(val) and str(want).startswith(str(val)) for val in carried):
+                    cond = "text-truncated"
                 else:
                     cond = "value-gone"
                 res.fail(f"C18/value-detached/{entry['op']}/{entry['kind']}/after-{after}:{cond}",
